@@ -242,8 +242,13 @@ def run_tdvp(ctx, psi, H, sec, run, tag, witness, full, ref0, Hfun=None, judge=T
             if not (out.ti == times[0] and out.tf == times[0] and out.steps == 0 and out.time_independent == (Hfun is None)):
                 ctx.violation("bookkeeping:yield_initial", f"{tag}: initial yield is {tuple(out)}, expected (t0, t0, {Hfun is None}, dt, 0)", witness)
             v = observe(ctx, psi, sec, tag + " initial", witness, normalize, canonical=not run["start_noncanonical"])
-            if not np.array_equal(v, ref0):
-                ctx.violation("yield_initial:state-changed", f"{tag}: the state yielded before the evolution differs from the initial state", witness)
+            # the initial state itself, or (a canonising tdvp_ with normalize=True) its normalised version
+            dev = T.rel_diff(v, ref0)
+            if normalize:
+                dev = min(dev, T.rel_diff(v, ref0 / n0))
+            if not ctx.margin("yield_initial", dev, 1e-12):
+                ctx.violation("yield_initial:state-changed", f"{tag}: the state yielded before the evolution differs from the initial "
+                              f"state by {dev:.3e}", witness)
             continue
         first = False
         k += 1
